@@ -10,6 +10,8 @@ One case = one call of one anchored function on a generated base grid:
   extrude    grid_extrusion.extrude_grid(g, z)               point / line / triangle / (perturbed) Cartesian bases, 1-4 layers up or down
   extrude_mdg  grid_extrusion.extrude_mdg(mdg, z)            2-d Cartesian md-grids with 1-2 fractures (interface face-cell pairs, second-side faces, mortar cells vs model)
   srefcart1d   structured_refinement on nested uniform 1-d Cartesian grids (sweep = index formula i / r)
+  sref_entry   entry guards of structured_refinement: point grid (1x1 identity), equal cell counts / swapped grids / unequal dimensions (AssertionError)
+  refine1d_twice  refine_grid_1d applied to its own output (ratios r1, r2; ancestors i // (r1 r2))
   extrude_err  extrude_grid with a mixed-sign z              (must raise ValueError)
 Index outputs (connectivity, cell/face maps, parent maps) are compared exactly with the Lean model
 (PorepyVerif/C23/Model.lean), coordinates with tolerance 1e-9; the oracle checks the property itself on the real code.
@@ -50,6 +52,12 @@ THEOREMS = [
     "PorepyVerif.C23.extrude_prism_closed_tri",
     "PorepyVerif.C23.horizontal_face_orientation_tri",
     "PorepyVerif.C23.faces_ordered_numbering",
+    "PorepyVerif.C23.tri_children_coords_of_ok",
+    "PorepyVerif.C23.sweep_total_of_unique",
+    "PorepyVerif.C23.extrude_heights_sign",
+    "PorepyVerif.C23.sref_entry_spec",
+    "PorepyVerif.C23.refine1d_twice_nested",
+    "PorepyVerif.C23.refine1d_twice_refines_spec",
 ]
 LEAN_MODULES = ["PorepyVerif.C23.Props"]
 AUDIT = "PorepyVerif/C23/Audit.lean"
@@ -152,6 +160,15 @@ LINE_DIRS_PLANAR = [(1, 0, 0), (0, 1, 0), (1, 1, 0), (2, -1, 0), (-1, 0, 0), (1,
 LINE_DIRS_3D = [(0, 0, 1), (1, -1, 2), (1, 2, 2), (0, 3, 4), (2, 0, -1)]
 
 
+SCALES = {"up": Fr(2) ** 20, "down": Fr(1, 2 ** 8)}
+
+
+def _scale(rng):
+    """extreme-scale stratum: 10% coordinates x 2^20, 10% x 2^-8 (exact in binary64)"""
+    u = rng.random()
+    return "up" if u < 0.1 else "down" if u < 0.2 else None
+
+
 def _gen_line(rng, tier, planar=False, connected=False):
     nc = rng.choice([1, 1, 2, 3, 4, 5, 6] + ([8, 12] if tier == "thorough" else []))
     t = [_dy(rng, -4, 4, 2)]
@@ -178,8 +195,12 @@ def _gen_line(rng, tier, planar=False, connected=False):
     cells = [[perm[a], perm[b]] for a, b in cells]
     if rng.random() < 0.5:
         rng.shuffle(cells)
-    nodes = [[frac(p0[i] + tj * d[i]) for i in range(3)] for tj in tt]
+    sc = _scale(rng)
+    k = SCALES.get(sc, Fr(1))
+    nodes = [[frac(k * (p0[i] + tj * d[i])) for i in range(3)] for tj in tt]
     base = {"type": "line", "nodes": nodes, "cells": cells, "t": [frac(x) for x in tt]}
+    if sc:
+        base["scale"] = sc
     if rng.random() < 0.4:  # face numbering differs from node numbering: face f sits at node faces[f] (as after node splitting)
         faces = list(range(n))
         rng.shuffle(faces)
@@ -271,7 +292,12 @@ def _gen_tri_once(rng, tier):
         rng.shuffle(tris)
     if not all(_area2(*[new_pts[v] for v in t]) > 0 for t in tris):
         return None
-    return {"type": "tri", "nodes": [[frac(x), frac(y)] for x, y in new_pts], "tris": tris}
+    sc = _scale(rng)
+    k = SCALES.get(sc, Fr(1))
+    base = {"type": "tri", "nodes": [[frac(k * x), frac(k * y)] for x, y in new_pts], "tris": tris}
+    if sc:
+        base["scale"] = sc
+    return base
 
 
 def _gen_cart(rng, tier):
@@ -281,7 +307,12 @@ def _gen_cart(rng, tier):
         pts = [(x + Fr(rng.randint(-1, 1), 8), y + Fr(rng.randint(-1, 1), 8)) for x, y in pts]
     A, b = _affine(rng)
     pts = [_apply(A, b, p) for p in pts]
-    return {"type": "cart", "nx": nx, "ny": ny, "nodes": [[frac(x), frac(y)] for x, y in pts]}
+    sc = _scale(rng)
+    k = SCALES.get(sc, Fr(1))
+    base = {"type": "cart", "nx": nx, "ny": ny, "nodes": [[frac(k * x), frac(k * y)] for x, y in pts]}
+    if sc:
+        base["scale"] = sc
+    return base
 
 
 def _gen_z(rng):
@@ -296,21 +327,27 @@ def _gen_z(rng):
 
 def gen_case(rng, tier):
     u = rng.random()
-    if u < 0.20:
+    if u < 0.17:
         return {"kind": "refine1d", "base": _gen_line(rng, tier), "ratio": rng.choice([1, 2, 2, 3, 3, 4, 5])}
-    if u < 0.30:
+    if u < 0.25:
         return {"kind": "remesh1d", "base": _gen_line(rng, tier, connected=True), "n": rng.choice([2, 3, 4, 5, 6, 9])}
-    if u < 0.50:
+    if u < 0.42:
         return {"kind": "tri", "base": _gen_tri(rng, tier)}
-    if u < 0.58:
+    if u < 0.48:
         return {"kind": "sref1d", "base": _gen_line(rng, tier), "ratio": rng.choice([2, 3, 4, 5])}
-    if u < 0.67:
+    if u < 0.55:
         return {"kind": "sref2d", "base": _gen_tri(rng, tier), "shuffle": rng.randrange(1 << 30)}
-    if u < 0.69:
+    if u < 0.57:
         return {"kind": "sref3d", "n": rng.choice([[1, 1, 1], [2, 1, 1], [1, 2, 1]]), "factor": 2}
-    if u < 0.72:
+    if u < 0.60:
         return dict(rng.choice(MDG_SHAPES), kind="extrude_mdg", z=_gen_z(rng))
-    if u < 0.75:
+    if u < 0.66:
+        v = rng.choice(["point", "order", "order", "dim", "ok"])
+        return {"kind": "sref_entry", "variant": v, "base": _gen_line(rng, tier), "fine": _gen_tri(rng, tier), "ratio": rng.choice([2, 3]),
+                "swap": rng.random() < 0.5}
+    if u < 0.70:
+        return {"kind": "refine1d_twice", "base": _gen_line(rng, tier), "r1": rng.choice([1, 2, 3]), "r2": rng.choice([1, 2, 3])}
+    if u < 0.73:
         return {"kind": "srefcart1d", "n": rng.randint(1, 6), "ratio": rng.choice([2, 3, 4, 5]), "x0": frac(_dy(rng, -4, 4)),
                 "h": frac(Fr(rng.randint(1, 12), rng.choice([1, 2, 4])))}
     if u < 0.97:
@@ -325,11 +362,16 @@ def gen_case(rng, tier):
             base = _gen_tri(rng, tier)
         else:
             base = _gen_cart(rng, tier)
-        return {"kind": "extrude", "base": base, "z": _gen_z(rng)}
+        z = _gen_z(rng)
+        if base.get("scale"):  # keep the aspect ratio of the prisms moderate: layer coordinates scale with the base grid
+            z = [frac(Fr(v) * SCALES[base["scale"]]) for v in z]
+        return {"kind": "extrude", "base": base, "z": z}
     z = [_dy(rng, -3, 3) for _ in range(rng.randint(2, 4))]
     z[0], z[1] = Fr(-1), Fr(1, 2)
     rng.shuffle(z)
     base = rng.choice([_gen_line(rng, tier, planar=True), _gen_cart(rng, tier), {"type": "point", "xyz": ["0", "1", "0"]}])
+    if rng.random() < 0.4:  # valid z, but a 3-d base grid: the dispatcher must refuse it
+        return {"kind": "extrude_err", "base": {"type": "tet", "n": rng.choice([[1, 1, 1], [2, 1, 1]])}, "z": _gen_z(rng)}
     return {"kind": "extrude_err", "base": base, "z": [frac(v) for v in z]}
 
 
@@ -362,6 +404,8 @@ def build_base(base):
         g = pp.CartGrid([base["nx"], base["ny"]])
         xy = _fl(base["nodes"])
         g.nodes = np.vstack((xy, np.zeros(xy.shape[1])))
+    elif ty == "tet":
+        g = pp.StructuredTetrahedralGrid(base["n"])
     elif ty == "point":
         g = pp.PointGrid(np.array([float(Fr(v)) for v in base["xyz"]]))
     else:
@@ -427,6 +471,32 @@ def _srefcart_grids(case):
     return g, h
 
 
+def _sref_entry_grids(case):
+    """(coarse, fine) for the entry guards of structured_refinement."""
+    import porepy as pp
+    from porepy.grids import refinement
+
+    line = build_base(case["base"])
+    v = case["variant"]
+    if v == "point":
+        g = pp.PointGrid(np.array([0.0, 1.0, 0.0]))
+        g.compute_geometry()
+        return g, (line if case["swap"] else g)
+    if v == "order":  # equal cell counts, or the refined grid passed as the coarse one
+        fine = refinement.refine_grid_1d(line, case["ratio"])
+        return (fine, line) if case["swap"] else (line, line)
+    if v == "dim":  # 1-d coarse grid, 2-d fine grid with more cells
+        tri = build_base(case["fine"])
+        fine = refinement.refine_triangle_grid(tri)[0]
+        for _ in range(3):
+            if fine.num_cells > line.num_cells:
+                break
+            fine = refinement.refine_triangle_grid(fine)[0]
+        fine.compute_geometry()
+        return line, fine
+    return line, refinement.refine_grid_1d(line, case["ratio"])
+
+
 def _mdg_interfaces(mdg, new, gmap):
     """(old interface, its data, the matching new interface) in the order of the old md-grid."""
     out = []
@@ -476,16 +546,16 @@ def impl_run(case):
         if k == "tri":
             g = build_base(case["base"])
             h, parent = refinement.refine_triangle_grid(g)
-            return {"nodes": _nodes_out(h, 2), "tri": [sorted(c) for c in _cols(h.cell_nodes())], "parent": [int(p) for p in parent]}
+            return {"nodes": _nodes_out(h, 2), "tri": [sorted(c) for c in _cols(h.cell_nodes())], "parent": [int(p) for p in parent], "input_ok": True}
         if k == "sref1d":
             g = build_base(case["base"])
             h = refinement.refine_grid_1d(g, case["ratio"])
             m = refinement.structured_refinement(g, h)
-            return {"cols": [sorted(c) for c in _cols(m)], "shape": [int(v) for v in m.shape]}
+            return {"cols": [sorted(c) for c in _cols(m)], "shape": [int(v) for v in m.shape], "input_ok": True}
         if k == "sref2d":
             g, h, _, _, _ = _sref2d_grids(case)
             m = refinement.structured_refinement(g, h)
-            return {"cols": [sorted(c) for c in _cols(m)], "shape": [int(v) for v in m.shape]}
+            return {"cols": [sorted(c) for c in _cols(m)], "shape": [int(v) for v in m.shape], "input_ok": True}
         if k == "sref3d":
             g, h = _sref3d_grids(case)
             m = refinement.structured_refinement(g, h)
@@ -506,6 +576,16 @@ def impl_run(case):
                 intfs.append({"pairs": sorted([int(a), int(b)] for a, b in zip(r2, c2)), "other_side": other,
                               "sides": int(mg.num_sides()), "mortar_cells": int(mg.num_cells)})
             return {"cells": sorted([int(gmap[sd].grid.dim), int(gmap[sd].grid.num_cells)] for sd in mdg.subdomains()), "interfaces": intfs}
+        if k == "sref_entry":
+            g, h = _sref_entry_grids(case)
+            m = refinement.structured_refinement(g, h)
+            if g.dim == 0:
+                return {"entry": "point", "matrix": [[frac(v) for v in row] for row in m.toarray()]}
+            return {"entry": "sweep", "shape": [int(v) for v in m.shape]}
+        if k == "refine1d_twice":
+            g = build_base(case["base"])
+            h = refinement.refine_grid_1d(refinement.refine_grid_1d(g, case["r1"]), case["r2"])
+            return {"nodes": _nodes_out(h), "cells": _cols_signed(h.cell_faces)}
         if k == "srefcart1d":
             g, h = _srefcart_grids(case)
             m = refinement.structured_refinement(g, h)
@@ -518,6 +598,7 @@ def impl_run(case):
                    "cell_map": [[int(v) for v in row] for row in cm], "face_map": [[int(v) for v in row] for row in fm]}
             if g.dim == 2:  # cyclic node order of the 3-d faces (stored order of the csc columns)
                 out["fn_cyclic"] = [_cyc(c) for c in _cols(h.face_nodes)]
+            out["input_ok"] = True
             return out
     except Exception as e:
         return err_kind(e)
@@ -566,6 +647,14 @@ def model_ops(case):
         return [{"op": "sref2d", "cells": cells, "pts": cen}]
     if k == "sref3d":
         return [{"op": "echo"}]
+    if k == "sref_entry":
+        try:
+            g, h = _sref_entry_grids(case)
+        except Exception:  # the refinement that prepares the pair failed: the oracle reports it, the comparison must not pass
+            return [{"op": "echo"}]
+        return [{"op": "sref_entry", "dim_c": int(g.dim), "dim_f": int(h.dim), "nc_c": int(g.num_cells), "nc_f": int(h.num_cells)}]
+    if k == "refine1d_twice":
+        return [{"op": "refine1d_twice", "nodes": b["nodes"], "cells": [sorted(c) for c in b["cells"]], "r1": case["r1"], "r2": case["r2"]}]
     if k == "srefcart1d":
         return [{"op": "srefcart", "o": [case["x0"], "0", "0"], "h": [case["h"], "1", "1"], "n": [case["n"], 1, 1], "r": [case["ratio"], 1, 1]}]
     if k == "extrude_mdg":
@@ -599,6 +688,16 @@ def model_decode(outs, case):
     k = case["kind"]
     if isinstance(o, dict) and "err" in o:
         return o
+    if k == "sref_entry":
+        if o == "ok":
+            return {"model": "the pair of grids could not be prepared"}
+        if o["entry"] == "point":
+            return {"entry": "point", "matrix": [["1"]]}
+        g, h = _sref_entry_grids(case)
+        return {"entry": "sweep", "shape": [int(h.num_cells), int(g.num_cells)]}
+    if k == "refine1d_twice":
+        cells = [sorted([[a, o["signs"][2 * i]], [b, o["signs"][2 * i + 1]]]) for i, (a, b) in enumerate(o["cells"])]
+        return {"nodes": o["nodes"], "cells": cells}
     if k == "refine1d":
         cells = [sorted([[a, o["signs"][2 * i]], [b, o["signs"][2 * i + 1]]]) for i, (a, b) in enumerate(o["cells"])]
         return {"nodes": o["nodes"], "cells": cells, "faces_are_nodes": True}
@@ -606,10 +705,10 @@ def model_decode(outs, case):
         n = len(o["nodes"])
         return {"nodes": o["nodes"], "cells": [[[i, -1], [i + 1, 1]] for i in range(n - 1)]}  # TensorGrid topology
     if k == "tri":
-        return {"nodes": o["nodes"], "tri": [sorted(t) for t in o["tri"]], "parent": o["parent"]}
+        return {"nodes": o["nodes"], "tri": [sorted(t) for t in o["tri"]], "parent": o["parent"], "input_ok": o["input_ok"]}
     if k in ("sref1d", "sref2d"):
         npts = sum(len(c) for c in o["cols"])
-        return {"cols": [sorted(c) for c in o["cols"]], "shape": [npts, len(o["cols"])]}
+        return {"cols": [sorted(c) for c in o["cols"]], "shape": [npts, len(o["cols"])], "input_ok": o["input_ok"]}
     if k == "sref3d":
         n = case["n"]
         nc = 6 * n[0] * n[1] * n[2]
@@ -626,6 +725,7 @@ def model_decode(outs, case):
                "cell_map": o["cell_map"], "face_map": o["face_map"]}
         if o.get("fn_ord") is not None:
             out["fn_cyclic"] = [_cyc(f) for f in o["fn_ord"]]
+        out["input_ok"] = o["input_ok"]
         return out
     raise ValueError(k)
 
@@ -704,8 +804,12 @@ def _oracle_refine1d(case):
     from porepy.grids import refinement
 
     g = build_base(case["base"])
-    r = case["ratio"]
-    h = _call(refinement.refine_grid_1d, g, r)
+    if case["kind"] == "refine1d_twice":  # refine, then refine the result: ancestors by i // (r1 r2)
+        r = case["r1"] * case["r2"]
+        h = _call(refinement.refine_grid_1d, _call(refinement.refine_grid_1d, g, case["r1"]), case["r2"])
+    else:
+        r = case["ratio"]
+        h = _call(refinement.refine_grid_1d, g, r)
     why = _valid_grid(h)
     if why:
         return _fail(case, "invalid-grid", why)
@@ -1068,8 +1172,33 @@ def oracle(case):
         return _fail(case, e.key, f"valid input: {e}")
 
 
+def _oracle_sref_entry(case):
+    from porepy.grids import refinement
+
+    g, h = _call(_sref_entry_grids, case)
+    want = "point" if g.dim == 0 else ("sweep" if (g.num_cells < h.num_cells and g.dim == h.dim) else "assert")
+    try:
+        m = refinement.structured_refinement(g, h)
+    except AssertionError:
+        return None if want == "assert" else _fail(case, "entry-raises", f"valid pair of grids ({want}) raised AssertionError")
+    except Exception as e:
+        return _fail(case, "entry-wrong-error", f"{case['variant']}: raised {type(e).__name__}: {e}")
+    if want == "assert":
+        return _fail(case, "entry-accepts", f"{case['variant']}: grids in the wrong order / of unequal dimension were accepted "
+                     f"(coarse dim {g.dim}, {g.num_cells} cells; fine dim {h.dim}, {h.num_cells} cells)")
+    if want == "point" and (m.shape != (1, 1) or m.toarray()[0, 0] != 1):
+        return _fail(case, "entry-point", "point grid does not give the 1x1 identity mapping")
+    if want == "sweep" and m.shape != (h.num_cells, g.num_cells):
+        return _fail(case, "shape", f"mapping has shape {m.shape}")
+    return None
+
+
 def _oracle(case):
     k = case["kind"]
+    if k == "sref_entry":
+        return _oracle_sref_entry(case)
+    if k in ("refine1d", "refine1d_twice"):
+        return _oracle_refine1d(case)
     if k == "refine1d":
         return _oracle_refine1d(case)
     if k == "remesh1d":
@@ -1086,18 +1215,23 @@ def _oracle(case):
         from porepy.grids.grid_extrusion import extrude_grid
 
         g = build_base(case["base"])
+        want = "at most 2" if g.dim > 2 else "positive or negative direction"
         try:
             extrude_grid(g, np.array([float(Fr(v)) for v in case["z"]]))
-        except ValueError:
-            return None
+        except ValueError as e:
+            if want in str(e):
+                return None
+            return _fail(case, "wrong-error", f"refused with an unrelated ValueError ({e}) instead of the documented one ('...{want}...')")
         except Exception as e:
-            return _fail(case, "wrong-error", f"mixed-sign z raised {type(e).__name__}")
-        return _fail(case, "no-error", "mixed-sign z was accepted")
+            return _fail(case, "wrong-error", f"mixed-sign z / 3-d base raised {type(e).__name__}")
+        return _fail(case, "no-error", "mixed-sign z / 3-d base was accepted")
     raise ValueError(k)
 
 
 # ----------------------------------------------------------------------------- bookkeeping
 def _ncells(base):
+    if base["type"] == "tet":
+        return 6 * base["n"][0] * base["n"][1] * base["n"][2]
     if base["type"] == "frac":
         f = base["fracs"][base["which"]]
         return int(abs(f[0][1] - f[0][0]) + abs(f[1][1] - f[1][0]))
@@ -1106,8 +1240,10 @@ def _ncells(base):
 
 def nontrivial(case):
     k = case["kind"]
-    if k in ("extrude_err", "sref3d", "extrude_mdg", "srefcart1d"):
+    if k in ("extrude_err", "sref3d", "extrude_mdg", "srefcart1d", "sref_entry"):
         return k != "extrude_err"
+    if k == "refine1d_twice":
+        return _ncells(case["base"]) > 1 and case["r1"] * case["r2"] > 1
     many = _ncells(case["base"]) > 1
     if k in ("refine1d", "sref1d"):
         return many and case["ratio"] > 1
@@ -1142,12 +1278,25 @@ def stats(cases, impl_outs):
         if "base" in c:
             key = f"{c['base']['type']}:{min(_ncells(c['base']), 10)}"
             bases[key] = bases.get(key, 0) + 1
-        if "ratio" in c:
+        if "ratio" in c and c["kind"] != "sref_entry":
             ratios[str(c["ratio"])] = ratios.get(str(c["ratio"]), 0) + 1
         if "z" in c:
             key = f"{len(c['z']) - 1}{'-' if Fr(c['z'][-1]) < 0 else '+'}"
             layers[key] = layers.get(key, 0) + 1
-    return {"kinds": kinds, "base_type:cells(max 10)": dict(sorted(bases.items())), "ratios": ratios, "layers(sign)": layers,
+    strata = {
+        "scale_up_2^20": sum(1 for c in cases if c.get("base", {}).get("scale") == "up"),
+        "scale_down_2^-8": sum(1 for c in cases if c.get("base", {}).get("scale") == "down"),
+        "single_cell_base": sum(1 for c in cases if "base" in c and _ncells(c["base"]) == 1),
+        "ratio_1_identity_refinement": sum(1 for c in cases if c.get("ratio") == 1 or (c["kind"] == "refine1d_twice" and 1 in (c["r1"], c["r2"]))),
+        "repeated_refinement": sum(1 for c in cases if c["kind"] == "refine1d_twice"),
+        "sref_entry_variants": {v: sum(1 for c in cases if c["kind"] == "sref_entry" and c["variant"] == v) for v in ("point", "order", "dim", "ok")},
+        "extrude_err_3d_base": sum(1 for c in cases if c["kind"] == "extrude_err" and c["base"]["type"] == "tet"),
+        "extrude_err_mixed_sign_z": sum(1 for c in cases if c["kind"] == "extrude_err" and c["base"]["type"] != "tet"),
+        "permuted_node_or_face_numbering": sum(1 for c in cases if c.get("base", {}).get("type") == "line" and ("faces" in c["base"] or [sorted(x) for x in c["base"]["cells"]] != sorted(sorted(x) for x in c["base"]["cells"]))),
+        "single_layer_extrusion": sum(1 for c in cases if c["kind"] == "extrude" and len(c["z"]) == 2),
+        "remesh_two_nodes": sum(1 for c in cases if c["kind"] == "remesh1d" and c["n"] == 2),
+    }
+    return {"kinds": kinds, "strata": strata, "base_type:cells(max 10)": dict(sorted(bases.items())), "ratios": ratios, "layers(sign)": layers,
             "errors": sum(1 for o in impl_outs if isinstance(o, dict) and "err" in o),
             "lines_with_permuted_face_numbering": sum(1 for c in cases if c.get("base", {}).get("type") == "frac" or "faces" in c.get("base", {})),
             "split_node_lines": sum(1 for c in cases if c.get("base", {}).get("type") == "line" and len(c["base"]["nodes"]) > len(c["base"]["cells"]) + 1)}
